@@ -1005,7 +1005,7 @@ func vmgrGenStress(w *vmgrWorld, out *vmgrOut, rng *rand.Rand) {
 		if p == iph {
 			// netpoll.Initialize() racing the first (lazily initialising) Picks after a reconfiguration that leaves a
 			// good number of pollers to open (the longer Run takes, the more callers arrive while it is under way)
-			do("setn %d", 4+rng.Intn(21))
+			do("setn %d", 4+rng.Intn(13))
 			k := 2 + rng.Intn(15)
 			do("iphase %d %d %d", k, 1+rng.Intn((k+1)/2), rng.Intn(1<<30))
 			continue
